@@ -119,3 +119,84 @@ func TestRegressionAlteredInnerKey(t *testing.T) {
 	}
 	fmt.Println("inner nodes tampered:", inner)
 }
+
+// Fixed shape of the class TestSnapshotRoundTripAndCorruption generates with its "inner-key" damage: the key of an
+// inner node is LOWERED (last byte - 1), so that it still separates the two subtrees: every lookup and the iteration
+// of the imported tree still work and the root is the advertised one. Such an archive must be refused as well; when it
+// is accepted, the imported tree must at least be the exported one: a new export equals the archive and the next
+// block (here: the account whose key is the altered key) gives the same root on both sides.
+func TestRegressionLoweredInnerKey(t *testing.T) {
+	db := dbm.NewMemDB()
+	s, _ := state.NewLazy(db)
+	s.Load(0)
+	for i := 1; i <= 9; i++ {
+		var a common.Address
+		a[0], a[19] = byte(i*20), byte(i)
+		s.SetBalance(a, big.NewInt(int64(1000+i)))
+	}
+	if _, _, _, err := s.Commit(true); err != nil {
+		t.Fatal(err)
+	}
+	var buf bytes.Buffer
+	root, err := s.WriteSnapshot2(1, &buf)
+	if err != nil {
+		t.Fatal(err)
+	}
+	inner := 0
+	for pick := 0; ; pick++ {
+		seen := 0
+		var genuine, lowered []byte
+		tampered, err := repack(buf.Bytes(), func(nodes []*models.ProtoSnapshotNodes_Node) {
+			for _, n := range nodes {
+				if n.Height > 0 {
+					if seen == pick {
+						genuine = n.Key
+						lowered = append([]byte{}, n.Key...)
+						lowered[len(lowered)-1]--
+						n.Key = lowered
+					}
+					seen++
+				}
+			}
+		})
+		if err != nil {
+			t.Fatalf("repack: %v", err)
+		}
+		inner = seen
+		if lowered == nil {
+			break
+		}
+		evid.Eval()
+		dst := dbm.NewMemDB()
+		ds, _ := state.NewLazy(dst)
+		ds.Load(0)
+		if err := ds.RecoverSnapshot2(1, root, bytes.NewReader(tampered)); err != nil {
+			continue // refused: fine
+		}
+		ds.CommitSnapshot(1, nil)
+		var again bytes.Buffer
+		if _, err := ds.WriteSnapshot2(1, &again); err != nil {
+			t.Fatal(err)
+		}
+		if !bytes.Equal(again.Bytes(), buf.Bytes()) {
+			t.Fatalf("archive with the key of inner node #%d lowered (%x -> %x) accepted with root %x as advertised, but the imported tree is not the exported one: a new export gives another archive; %s",
+				pick, genuine, lowered, ds.Root(), archiveDiff(again.Bytes(), buf.Bytes()))
+		}
+		ref, err := copyState(db, 1)
+		if err != nil {
+			t.Fatal(err)
+		}
+		w := contWrite{key: lowered, salt: 1}
+		applyWrite(ref, w)
+		applyWrite(ds, w)
+		_, r1, _, _ := ref.Commit(true)
+		_, r2, _, _ := ds.Commit(true)
+		if !bytes.Equal(r1, r2) {
+			t.Fatalf("archive with the key of inner node #%d lowered (%x -> %x) accepted: after the next block (new account %x) the importing state has root %x, the exporting state %x", pick, genuine, lowered, lowered[1:], r2, r1)
+		}
+	}
+	if inner == 0 {
+		t.Fatalf("no inner nodes in the archive")
+	}
+	fmt.Println("inner nodes tampered:", inner)
+}
